@@ -144,6 +144,7 @@ type Eng struct {
 	localRefs    map[string]bool
 	inlining     map[*ast.FuncLit]bool
 	goOrd        int
+	stableFields []string
 	oldState     *State // state in which old(...) is evaluated (entry state, or pre-call state for callee ensures)
 	inGo         int
 	counterHavocked map[string]bool
@@ -516,6 +517,29 @@ func (e *Eng) heapName(kind string, t types.Type) (string, string) {
 }
 
 func (e *Eng) havocHeap(st *State) {
+	var keep map[string]string
+	if e.con != nil && len(e.con.Stable) > 0 {
+		keep = map[string]string{}
+		for _, sf := range e.con.Stable {
+			tn, fn, _ := strings.Cut(sf, ".")
+			for k, v := range st.heap {
+				parts := strings.SplitN(k, "$", 3)
+				if len(parts) != 3 || parts[0] != "F" || parts[1] != fn {
+					continue
+				}
+				typ := parts[2]
+				if i := strings.Index(typ, tn); i >= 0 && (i == 0 || typ[i-1] == '.') && (i+len(tn) == len(typ) || typ[i+len(tn)] == '.') {
+					keep[k] = v
+				}
+			}
+			e.stableFields = append(e.stableFields, sf)
+		}
+	}
+	defer func() {
+		for k, v := range keep {
+			st.heap[k] = v
+		}
+	}()
 	for k := range st.heap {
 		delete(st.heap, k)
 	}
